@@ -29,6 +29,7 @@ META["explanation"] += ' R10.9 also decides the counter idiom (captured counter 
 META["explanation"] += ' R10.3 `+len`: the length added for Append / Reset must be that of the chunk the handler was given (a parameter, resolved at the use when the variable is re-bound later), not of a vector computed from it. R10.12 negative contract entry: no call of imbl::Vector::retain / FocusMut::{swap, pair, triplet} in eyeball-im and eyeball-im-util (known-bad in the pinned imbl 5.0.0; F9, repaired by 2cafcea).'
 META["explanation"] += ' R10.12 negative contract entry: no imbl Vector::retain, Vector::sort / sort_by / sort_by_key (recursive quicksort, depth linear in ties: F11) and no FocusMut::swap / pair / triplet (F9) anywhere in the three crates.'
 META["explanation"] += ' R10.4 bypass: a path that skips the index shift under a condition that does not mention the kept-index list is violated. R10.13 the position recorded for a pushed-back item is the source-length counter read before its increment (or after it, minus 1).'
+META["explanation"] += ' R10.14 a cached position in the kept-index list (any extra field of the filter state) is written by every handler that removes / inserts in front / clears / renumbers entries.'
 
 PAIR = lambda n: re.sub(r"_filter(_map)?$", "", n or "")
 
@@ -105,6 +106,7 @@ def run(ctx):
     r10_12(ctx)
     r10_10(ctx, handlers)
     r10_13(ctx, handlers)
+    r10_14(ctx, handlers)
     # R10.6
     for f, c, table, multi in ds:
         b = f.built
@@ -714,6 +716,38 @@ def r10_13(ctx, handlers):
             else:
                 ctx.undecided("R10.13", h, "recorded-position:PushBack", where, "order of the counter read and its increment not decided")
     ctx.floor("R10.13", n, 1)
+
+
+def r10_14(ctx, handlers):
+    """derived caches stay coherent with the kept-index list.  A field of the filter state besides the kept-index list and the source
+    length that remembers a *position in that list* (a cached search result) is only valid while no entry at or before it appears,
+    disappears or is renumbered.  Every handler that removes entries from the list, inserts in front / in the middle of it, clears
+    or renumbers it therefore writes that field (invalidates or re-computes it); handlers that only append at the end are exempt.
+    A single handler that forgets it leaves a stale position behind that a later handler uses instead of searching."""
+    F = ctx.facts
+    adt = None
+    for path, a in F.adts.items():
+        if path.startswith(UT + "::vector::filter::") and a.get("variants") and any(fd["name"] == "filtered_indices" for fd in a["variants"][0]["fields"]) \
+                and not any(str(fd["ty"]).startswith("&") for fd in a["variants"][0]["fields"] if fd["name"] == "filtered_indices"):
+            adt = a
+    if adt is None:
+        return
+    caches = [fd["name"] for fd in adt["variants"][0]["fields"]
+              if fd["name"] not in ("filtered_indices", "original_len") and re.match(r"^(std::option::Option<)?[\(\)usizebol, ]+>?$", str(fd["ty"]).replace("std::option::Option<", "std::option::Option<"))]
+    n = 0
+    for c in caches:
+        for key, (h, vs) in sorted(handlers.items()):
+            b = inl(F, h, desugar=True) or h.built
+            is_kept = lambda t: t["args"] and mentions_field(b.expr_of_op(t["args"][0]), "filtered_indices")
+            disturbing = [blk for blk, t in b.calls(KEPT_SHRINK + "|" + KEPT_OTHER + r"|VecDeque::<.*>::(push_front|insert)$") if is_kept(t)] + [l_[2][0] for l_ in shift_loops(b)]
+            if not disturbing:
+                continue
+            n += 1
+            writes = [loc for loc, s_ in assigns_to_field(b, c)]
+            ctx.verdict(bool(writes), "R10.14", h, "cache-invalidated:%s" % c, b.line_at((disturbing[0], 10 ** 6)), "`%s` is written (invalidated / recomputed) where the kept-index list is disturbed" % c,
+                        "`%s` removes, inserts or renumbers entries of the kept-index list but leaves the cached position `%s` as it is: when the cached entry is the one that disappears (or one before it does), a later handler that trusts the cache "
+                        "instead of searching addresses the wrong position - e.g. a Set is turned into an Insert and the view gets a duplicate" % (h.path, c))
+    return n
 
 
 KEPT_GROW = r"VecDeque::<.*>::(push_back|push_front|insert)$"
